@@ -100,6 +100,7 @@ var onlyFilter string
 type storeDef struct{ base, idx, val string }
 
 type Eng struct {
+	cloByTerm map[string]*Closure
 	covSeq int
 	ld   *Loaded
 	sc   *Script
@@ -150,6 +151,7 @@ func NewEng(ld *Loaded, spec *SpecFile) *Eng {
 		strLits: map[string]string{}, oblNames: map[string]int{}, notes: map[string]bool{},
 		maxInline: 4, modCache: map[*ssa.Function]map[string]bool{}, storeDefs: map[string]storeDef{}, allocRefs: map[string]bool{}, allocType: map[string]types.Type{}, published: map[string]bool{}, regionElemType: map[string]types.Type{}, regionKeySort: map[string]string{}}
 	e.sc.prelude.WriteString(slicePrelude)
+	defer e.btInit()
 	if spec != nil {
 		e.declDatatypes()
 		e.declTrace()
@@ -692,7 +694,7 @@ func (e *Eng) oblige(kind, key string, props []string, pos token.Pos, guard, phi
 	}
 	// obligations at the end of a path (lock invariants at Unlock, postconditions, loop steps) are not
 	// assumed afterwards: nothing on that path follows, and their quantifiers would only burden later queries
-	assumeAfter := !(kind == "lockinv" || kind == "post" || kind == "loop-step" || kind == "lemma" || kind == "site" || kind == "held")
+	assumeAfter := !(kind == "lockinv" || kind == "post" || kind == "loop-step" || kind == "iter-step" || kind == "lemma" || kind == "site" || kind == "held")
 	e.sc.obligation(o.ID, guard, phi, check, wm, assumeAfter)
 }
 
